@@ -19,14 +19,18 @@ from .program import ClassInfo, FuncInfo, Unit, norm
 SAFE_METHODS = {
     dict: {"items", "keys", "values", "get", "copy", "update", "setdefault", "pop", "clear"},
     list: {"append", "extend", "copy", "index", "count", "pop", "remove", "insert", "clear", "reverse", "sort"},
-    str: {"format", "title", "startswith", "endswith", "lower", "upper", "join", "replace", "split", "strip", "lstrip", "rstrip", "find", "isdigit"},
+    str: {"format", "title", "startswith", "endswith", "lower", "upper", "join", "replace", "split", "strip", "lstrip", "rstrip", "find", "isdigit", "removeprefix", "removesuffix", "zfill", "isalpha", "isalnum", "partition", "rpartition", "rfind", "index", "count", "isidentifier"},
     tuple: {"index", "count"},
     set: {"add", "union", "copy", "difference", "intersection", "issubset", "issuperset", "isdisjoint", "symmetric_difference", "update", "discard", "remove", "pop"},
     frozenset: {"union", "copy", "difference", "intersection", "issubset", "issuperset", "isdisjoint", "symmetric_difference"},
     type(__import__("re").compile("")): {"sub", "subn", "findall", "match", "search", "fullmatch", "split"},
+    type(__import__("re").match("", "")): {"group", "groups", "start", "end", "span", "groupdict"},
     slice: {"indices"},
     range: {"index", "count"},
 }
+_RE_PATTERN = type(__import__("re").compile(""))
+
+
 def _frame(*a, **k):
     from .framemodel import Frame
 
@@ -325,6 +329,10 @@ class Interp:
             return FuncRef(sym)
         if isinstance(sym, str) and sym in EXTERNAL_CONSTANTS:
             return EXTERNAL_CONSTANTS[sym]
+        if isinstance(sym, str) and sym in self.stubs and getattr(getattr(e, "_parent", None), "func", None) is not e:
+            # a class / function of a modelled library handed on as a value ({spl.Or: Or, spl.And: And})
+            stub = self.stubs[sym]
+            return ExtFunc(lambda *a, **k: stub(self, ev, e, list(a), k), sym)
         # module-level constants of the unit: literals and compiled regular expressions over literals
         g = ev.fn.unit.globals.get(e.id)
         if g:
@@ -679,6 +687,9 @@ class Interp:
             for t, allowed in SAFE_METHODS.items():
                 if isinstance(recv, t) and f.attr in allowed:
                     args, kwargs = self.args_of(ev, c)
+                    if t is _RE_PATTERN:
+                        # pattern.sub(<function of the package>, text): the library calls back into evaluated code
+                        args = [(lambda m, _a=a: self.call_value(_a, [m], {}, ev, c)) if isinstance(a, (FuncRef, PartialRef, Closure, LocalFunc)) else a for a in args]
                     return self._native_call(getattr(recv, f.attr), args, kwargs, c)
         elif isinstance(f, ast.Name) and f.id in ev.env:
             target = ev.env[f.id]
